@@ -44,6 +44,7 @@ type State struct {
 	nonnil  map[string]bool   // refs already known non-nil on this path (syntactic cache)
 	bounds  map[string]string // per heap array: allocation counter when it was last written (refs stored in it are older)
 	baseBound string          // bound of arrays never written since entry / last havoc-all
+	young   map[string]string // pointer term -> T: everything reachable from it was allocated after allocation-counter value T
 }
 
 func (s *State) clone() *State {
@@ -69,6 +70,10 @@ func (s *State) clone() *State {
 		n.bounds[k] = v
 	}
 	n.baseBound = s.baseBound
+	n.young = make(map[string]string, len(s.young))
+	for k, v := range s.young {
+		n.young[k] = v
+	}
 	return n
 }
 
@@ -85,7 +90,8 @@ func (s *State) newRef() string {
 	return fmt.Sprintf("(mkref %s 0)", s.alloc())
 }
 
-// get returns the current term of heap array arr.
+// get returns the current term of heap array arr. Merged states resolve arrays lazily: an array that is never
+// read after a join costs nothing.
 func (s *State) get(arr string) string {
 	if t, ok := s.heap[arr]; ok {
 		return t
@@ -95,12 +101,34 @@ func (s *State) get(arr string) string {
 	if !ok {
 		panic("unknown heap array " + arr)
 	}
+	if len(s.parents) > 0 {
+		var terms []string
+		for _, p := range s.parents {
+			terms = append(terms, p.st.get(arr))
+		}
+		same := true
+		for _, t := range terms[1:] {
+			if t != terms[0] {
+				same = false
+			}
+		}
+		if same {
+			s.heap[arr] = terms[0]
+			return terms[0]
+		}
+		name := fmt.Sprintf("%s@m%d", arr, s.epoch)
+		if _, done := fc.q.declared[name]; !done {
+			fc.q.declare(name, sortv)
+			for i, p := range s.parents {
+				fc.q.assert(implies(p.edge, eq(name, terms[i])))
+			}
+		}
+		s.heap[arr] = name
+		return name
+	}
 	name := fmt.Sprintf("%s!e%d", arr, s.epoch)
 	if _, done := fc.q.declared[name]; !done {
 		fc.q.declare(name, sortv)
-		for _, p := range s.parents {
-			fc.q.assert(implies(p.edge, eq(name, p.st.get(arr))))
-		}
 	}
 	s.heap[arr] = name
 	return name
@@ -138,6 +166,7 @@ func (s *State) havocAll() {
 	s.allocB, s.allocK = na, 0
 	s.bounds = map[string]string{}
 	s.baseBound = na
+	s.young = map[string]string{}
 	// non-escaping local objects are untouched by any callee
 	for _, lo := range fc.localObjs {
 		if !lo.live[s] && false {
@@ -165,6 +194,7 @@ func (s *State) havocArrs(arrs []string) {
 		old := s.get(a)
 		nv := fc.q.freshConst(a, fc.g.arrSort[a])
 		s.heap[a] = nv
+		fc.written[a] = true
 		s.bounds[a] = "" // resolved to the allocation counter after the call (see fixBounds)
 		for _, lo := range fc.localObjs {
 			var ls []Leaf
@@ -176,6 +206,26 @@ func (s *State) havocArrs(arrs []string) {
 				}
 			}
 		}
+	}
+}
+
+// havocArrsYoung: like havocArrs, but only cells allocated after counter value T may change
+// (the callee can only reach memory through an argument whose whole object graph is younger than T).
+func (s *State) havocArrsYoung(arrs []string, T string) {
+	fc := s.fc
+	sort.Strings(arrs)
+	for _, a := range arrs {
+		if _, ok := fc.g.arrSort[a]; !ok {
+			continue
+		}
+		old := s.get(a)
+		hv := fc.q.freshConst(a+"@hv", fc.g.arrSort[a])
+		nv := fc.q.freshConst(a, fc.g.arrSort[a])
+		fc.q.assert(implies(s.reach, eq(nv, fmt.Sprintf("(lambda ((yr Ref)) (ite (> (rbase yr) %s) (select %s yr) (select %s yr)))", T, hv, old))))
+		s.heap[a] = nv
+		fc.written[a] = true
+		s.bounds[a] = ""
+		fc.usesLambda()
 	}
 }
 
@@ -209,38 +259,26 @@ func mergeStates(fc *FnCtx, name string, preds []parentLink) *State {
 		edges = append(edges, p.edge)
 	}
 	q.assert(eq(reach, or(edges...)))
-	n := &State{fc: fc, reach: reach, locals: map[*ssa.Alloc]string{}, heap: map[string]string{}, ghost: map[string]string{}, nonnil: map[string]bool{}, bounds: map[string]string{}}
-	// epoch
-	same := true
-	for _, p := range preds[1:] {
-		if p.st.epoch != preds[0].st.epoch {
-			same = false
+	n := &State{fc: fc, reach: reach, locals: map[*ssa.Alloc]string{}, heap: map[string]string{}, ghost: map[string]string{}, nonnil: map[string]bool{}, bounds: map[string]string{}, young: map[string]string{}}
+	for k, v := range preds[0].st.young {
+		all := true
+		for _, p := range preds[1:] {
+			if p.st.young[k] != v {
+				all = false
+			}
+		}
+		if all {
+			n.young[k] = v
 		}
 	}
-	if same && len(preds[0].st.parents) == 0 {
-		n.epoch = preds[0].st.epoch
-	} else if same && len(preds) == 1 {
-		n.epoch = preds[0].st.epoch
-		n.parents = preds[0].st.parents
-	} else {
-		fc.epochCtr++
-		n.epoch = fc.epochCtr
-		n.parents = preds
+	// heap arrays are merged lazily (see State.get): every merged state has its own epoch and remembers its predecessors
+	fc.epochCtr++
+	n.epoch = fc.epochCtr
+	frozen := make([]parentLink, len(preds))
+	for i, p := range preds {
+		frozen[i] = parentLink{edge: p.edge, st: p.st}
 	}
-	// heap arrays
-	keys := map[string]bool{}
-	for _, p := range preds {
-		for k := range p.st.heap {
-			keys[k] = true
-		}
-	}
-	for _, k := range sortedKeys(keys) {
-		var terms []string
-		for _, p := range preds {
-			terms = append(terms, p.st.get(k))
-		}
-		n.heap[k] = mergeTerm(fc, k+"@"+name, fc.g.arrSort[k], preds, terms)
-	}
+	n.parents = frozen
 	// locals
 	lkeys := map[*ssa.Alloc]bool{}
 	for _, p := range preds {
